@@ -642,6 +642,10 @@ func (fx *fnExec) execMapUpdate(x *ssa.MapUpdate, where string) {
 	v := fx.fit(fx.val(x.Value), et)
 	h := fx.heap(fx.st, hn, hs)
 	had := tSel(tSel(h, m), kt)
+	var prevV SV
+	if fx.ctr != nil && len(fx.ctr.Hooks) > 0 {
+		_, prevV = fx.mapGet(fx.st, m, mt, fx.val(x.Key))
+	}
 	fx.st.heaps[hn] = tStore(h, m, tStore(tSel(h, m), kt, tTrue))
 	fl := flatten(v)
 	for i, l := range fx.leaves(et) {
@@ -653,7 +657,16 @@ func (fx *fnExec) execMapUpdate(x *ssa.MapUpdate, where string) {
 	lh := fx.heap(fx.st, ln, arrSort(SInt, fx.isort()))
 	cur := tSel(lh, m)
 	fx.st.heaps[ln] = tStore(lh, m, tIte(had, cur, fx.iAdd(cur, fx.iLit(1))))
-	fx.runHooks("mapupdate", x.Map.Name(), fx.curEnv(), where)
+	env := fx.curEnv()
+	// names for hooks: the map written, the key, the value stored, whether the key was present and its old value
+	env.names["target"] = Sc{m, mt}
+	env.names["key"] = fx.val(x.Key)
+	env.names["stored"] = v
+	env.names["had"] = Sc{had, types.Typ[types.Bool]}
+	if prevV != nil {
+		env.names["previous"] = prevV
+	}
+	fx.runHooks("mapupdate", x.Map.Name(), env, where)
 }
 
 func (fx *fnExec) mapDelete(m Term, mt types.Type, k SV) {
